@@ -488,6 +488,9 @@ def run(tier, seed):
                       "frames are compared as canonical JSON values (key order and whitespace ignored)",
                       "a crash between publishing a frame and appending it to the log is outside the model",
                       "payload mutants that the deserialiser refuses (enum values, wrong types) are not frames the system can emit and are skipped"]
+    # the repository's own tests as drivers: every recorded execution against the monitor half of System.tla
+    from .. import suite
+    suite.check(v, wd)
     return v.finish(
         rule="cases = streams of three scenarios (five copies each) + every frame type of the corpus with its payload mutants through Event and EventLog; "
              "non-trivial = stream with at least 3 frames, or a mutant; distinct by (scenario, stream kind, length) / (kind, mutant path, value class)",
@@ -498,6 +501,9 @@ def replay(path, seed):
     with open(path) as f:
         rep = json.load(f)
     c = rep["case"]
+    if c.get("engine") == "suite":
+        from .. import suite
+        return suite.replay(PROP, path, c)
     wd = workdir(PROP + "-replay")
     if c.get("engine") == "roundtrip" and isinstance(c.get("frame"), dict) and "type" in c["frame"]:
         res = run_harness("roundtrip", [{"id": "r", "frames": [c["frame"]]}], wd, "replay")[0]
